@@ -2,8 +2,9 @@
    hold in every reachable configuration (for EVERY parameter record: no validity hypothesis, all pinned /
    repaired variants), and their consequences in readable form.
    These are steps towards done_not_early / shutdown_completes (props/C12_pool.v), not those theorems. *)
-From Ekit Require Import Common Conc PoolModel PoolProofB0 PoolProofBA PoolProofB1 PoolProofB2d PoolProofB2s
-  PoolProofB2bd PoolProofB2bs.
+From Ekit Require Import Common Conc PoolModel PoolProof PoolProof2 PoolProof4 PoolProof5 PoolProof6 PoolProof7 PoolProofB
+  PoolProofB0 PoolProofBA PoolProofB1 PoolProofB2d PoolProofB2s PoolProofB2bd PoolProofB2bs
+  PoolProofB3d PoolProofB3s PoolProofB4d PoolProofB4s PoolProofBR PoolProofB5d PoolProofB6 PoolProofB7.
 From Coq Require Import ZifyBool Arith PeanoNat.
 
 Definition inv1 (c : pcfg) : Prop := invA c /\ invB c /\ invP c /\ invQ c.
@@ -127,4 +128,99 @@ Proof.
   destruct (s_q (c_sh c)) as [|k r]; cbn [qempty negb orb] in Z; [|discriminate Z].
   destruct (s_closed (c_sh c)); cbn [orb] in Z; [discriminate Z|].
   destruct (s_ictx (c_sh c)); [discriminate Z|]. auto.
+Qed.
+
+(* ================= the further layers: goroutine ids, totalGo / timeout-group accounting, returned list ================= *)
+(* these need a valid parameter record (1 <= initGo <= maxGo) *)
+Definition inv2 (P : params) (c : pcfg) : Prop :=
+  c_par c = P /\ inv1 c /\ invW c /\ invG c /\ invR c.
+
+Lemma inv2_init P : inv2 P (pinit P).
+Proof.
+  split; [reflexivity|]. split; [apply inv1_init|]. split; [apply invW_init|]. split; [apply invG_init|apply invR_init].
+Qed.
+
+Lemma inv2_step P c e c' : pvalid P -> inv2 P c -> pstep_cfg c e = Some c' -> inv2 P c'.
+Proof.
+  intros (V1 & V2 & V3 & _) (Hp & H1 & HW & HG & HR) Hs.
+  pose proof H1 as (HA & HB & HP & HQ).
+  split; [rewrite (par_const _ _ _ Hs); exact Hp|].
+  split; [eapply inv1_step; eauto|].
+  split; [eapply invW_step; eauto|].
+  split; [|eapply invR_step; eauto].
+  eapply invG_step; eauto; rewrite Hp; lia.
+Qed.
+
+Theorem inv2_reach P evs c : pvalid P -> exec pstep_cfg (pinit P) evs = Some c -> inv2 P c.
+Proof.
+  intros V H. eapply (invariant_reachable _ _ pstep_cfg (inv2 P) (fun c0 e c1 => inv2_step P c0 e c1 V) evs (pinit P) c);
+    [apply inv2_init|exact H].
+Qed.
+
+Lemma inv4_of_exec P evs c : i_fixc P = true -> exec pstep_cfg (pinit P) evs = Some c -> Inv4 c.
+Proof. intros Hf H. apply (inv4_reach P c Hf). exists evs. exact H. Qed.
+
+(* ---------- 5. the only way to be stuck: all goroutines are workers parked in their select ---------- *)
+Lemma stuck_threads_are_parked_lemma P evs c :
+  pvalid P -> i_fixc P = true -> exec pstep_cfg (pinit P) evs = Some c -> stuck c ->
+  (forall t x, lookup t (c_thr c) = Some x -> pc x = WParked /\ l_tm x <> TmArmed) /\
+  (s_closed (c_sh c) = true \/ s_ictx (c_sh c) = true \/ s_q (c_sh c) <> [] -> c_thr c = []).
+Proof.
+  intros V Hf H Hst. destruct (inv2_reach P evs c V H) as (_ & (HA & HB & HP & HQ) & _ & HG & _).
+  pose proof (inv4_of_exec P evs c Hf H) as H4.
+  split; [intros t x; apply (stuck_all_parked c HA HB HP HG H4 Hst)|apply (stuck_no_threads_if c HA HB HP HQ HG H4 Hst)].
+Qed.
+
+(* ---------- 6. goroutine ids and the two counters ---------- *)
+Lemma counters_lemma P evs c : pvalid P -> exec pstep_cfg (pinit P) evs = Some c ->
+  s_total (c_sh c) = tsum (pcf g_cnt) (c_thr c) + tsum pend (c_thr c) /\
+  (s_ictx (c_sh c) = true \/ s_gn (c_sh c) = tsum (ing (s_mp (c_sh c))) (c_thr c)) /\
+  (forall X, tsum (own_is X) (c_thr c) <= 1) /\
+  (forall a, In a (s_mp (c_sh c)) -> 1 <= a <= s_idc (c_sh c)).
+Proof.
+  intros V H. destruct (inv2_reach P evs c V H) as (_ & _ & HW & HG & _).
+  split; [exact (d_total c HG)|]. split; [exact (g_gn c HG)|]. split; [exact (w_uniq c HW)|exact (w_mp c HW)].
+Qed.
+
+(* ---------- 7. the target statements, given the Layer-5 record at the configuration ---------- *)
+(* [invK c] (proof/PoolProofB5d.v) is the conjunction of K, J, Q and the cancel bridge; every other
+   invariant used is discharged here by reachability.  What is missing for the full theorems is exactly:
+   invK is preserved by every step (and holds initially, which is immediate). *)
+Lemma done_not_early_partial_lemma P evs c :
+  pvalid P -> exec pstep_cfg (pinit P) evs = Some c -> invK c -> g_grace (c_gh c) = true ->
+  s_q (c_sh c) = [] /\
+  (forall t x, lookup t (c_thr c) = Some x -> g_cnt (pc x) = 0) /\
+  (forall i, PoolProof.tsum (held i) (c_thr c) = 0) /\
+  (forall i, In i (g_acc (c_gh c)) -> In i (g_done (c_gh c))).
+Proof.
+  intros V H HK Hg. destruct (inv2_reach P evs c V H) as (_ & (HA & HB & HP & HQ) & _ & HG & HR).
+  exact (done_not_early_at P evs c H HA HP HK HR Hg).
+Qed.
+
+Lemma shutdown_completes_partial_lemma P evs c :
+  pvalid P -> i_fixc P = true -> exec pstep_cfg (pinit P) evs = Some c -> invK c ->
+  g_shut (c_gh c) = true -> stuck c ->
+  s_state (c_sh c) = SStopped /\ s_ictx (c_sh c) = true /\
+  (forall i, In i (g_acc (c_gh c)) -> In i (g_done (c_gh c))).
+Proof.
+  intros V Hf H HK Hs Hst. destruct (inv2_reach P evs c V H) as (_ & (HA & HB & HP & HQ) & _ & HG & HR).
+  exact (shutdown_completes_at P evs c H HA HB HP HQ HG HK HR (inv4_of_exec P evs c Hf H) Hst Hs).
+Qed.
+
+Lemma stuck_running_implies_queue_empty_partial_lemma P evs c :
+  pvalid P -> i_fixc P = true -> exec pstep_cfg (pinit P) evs = Some c -> invK c ->
+  stuck c -> s_state (c_sh c) = SRunning -> s_q (c_sh c) = [].
+Proof.
+  intros V Hf H HK Hst Hr. destruct (inv2_reach P evs c V H) as (Hp & (HA & HB & HP & HQ) & _ & HG & HR).
+  destruct V as (V1 & _).
+  exact (stuck_running_queue_empty_at P c Hp V1 HA HB HP HQ HG HK (inv4_of_exec P evs c Hf H) Hst Hr).
+Qed.
+
+Lemma at_quiescence_none_lost_partial_lemma P evs c :
+  pvalid P -> i_fixc P = true -> exec pstep_cfg (pinit P) evs = Some c -> invK c ->
+  g_shut (c_gh c) = true \/ g_now (c_gh c) = true -> stuck c ->
+  forall i, In i (g_acc (c_gh c)) -> In i (g_done (c_gh c)) \/ In i (g_returned (c_gh c)).
+Proof.
+  intros V Hf H HK Hsn Hst. destruct (inv2_reach P evs c V H) as (_ & (HA & HB & HP & HQ) & _ & HG & HR).
+  exact (at_quiescence_none_lost_at P evs c H HA HB HP HQ HG HK HR (inv4_of_exec P evs c Hf H) Hst Hsn).
 Qed.
